@@ -62,9 +62,51 @@ impl Family for Sites {
     }
     fn run(&self, idx: u64, st: &mut Stats) -> Result<(), Violation> {
         let (ki, site, mi) = self.case(idx);
-        let (name, kind) = KINDS[ki];
-        let msg = self.msgs[mi].clone();
         st.nontrivial += 1;
+        run_site(ki, site, self.msgs[mi].clone(), None, st)
+    }
+    fn describe(&self, idx: u64) -> J {
+        let (ki, site, mi) = self.case(idx);
+        json!({"kind": KINDS[ki].0, "site": SITES[site], "message_hex": hex(&self.msgs[mi][..self.msgs[mi].len().min(40)]), "message_len": self.msgs[mi].len()})
+    }
+}
+
+/// the same sites for clients that answered the greeting differently: the ERR packet a 4.1
+/// server sends does not depend on it
+struct Handshakes {
+    kinds: Vec<usize>,
+    msgs: Vec<Vec<u8>>,
+}
+impl Handshakes {
+    fn case(&self, idx: u64) -> (usize, usize, usize, u64) {
+        let d = digits(idx, &[self.kinds.len() as u64, SITES.len() as u64, self.msgs.len() as u64, N_HANDSHAKE_VARIANTS]);
+        (self.kinds[d[0] as usize], d[1] as usize, d[2] as usize, d[3])
+    }
+}
+impl Family for Handshakes {
+    fn name(&self) -> String {
+        "handshake-variants-x-sites".into()
+    }
+    fn len(&self) -> u64 {
+        self.kinds.len() as u64 * SITES.len() as u64 * self.msgs.len() as u64 * N_HANDSHAKE_VARIANTS
+    }
+    fn run(&self, idx: u64, st: &mut Stats) -> Result<(), Violation> {
+        let (ki, site, mi, hv) = self.case(idx);
+        st.nontrivial += 1;
+        if hv != 0 {
+            st.bump("errors_to_other_handshakes");
+        }
+        run_site(ki, site, self.msgs[mi].clone(), Some(hv), st)
+    }
+    fn describe(&self, idx: u64) -> J {
+        let (ki, site, mi, hv) = self.case(idx);
+        json!({"kind": KINDS[ki].0, "site": SITES[site], "message_len": self.msgs[mi].len(), "handshake": handshake_variant(hv).1})
+    }
+}
+
+fn run_site(ki: usize, site: usize, msg: Vec<u8>, hs: Option<u64>, st: &mut Stats) -> Result<(), Violation> {
+    {
+        let (name, kind) = KINDS[ki];
         let c2 = Arc::new(vec![
             col("a", ColumnType::MYSQL_TYPE_LONG, ColumnFlags::empty()),
             col("b", ColumnType::MYSQL_TYPE_VAR_STRING, ColumnFlags::empty()),
@@ -86,7 +128,14 @@ impl Family for Sites {
         };
         let mut cmds = cmds;
         cmds.push(ping());
-        let conv = Conv::new(cmds);
+        let mut conv = Conv::new(cmds);
+        let mut hs_what = "";
+        if let Some(k) = hs {
+            let (h, w) = handshake_variant(k);
+            conv.handshake = h;
+            hs_what = w;
+        }
+        let name = &if hs.is_some() { format!("{} [{}]", name, hs_what) } else { name.to_string() };
         let s = conv.stream();
         let stream = Arc::new(s.bytes);
         let mut sim = sim_for(&stream, vec![]);
@@ -137,10 +186,6 @@ impl Family for Sites {
             return Err(Violation::new("decoders-disagree", format!("{} / {}: mysql_common reads ({}, {:?}, {} bytes)", name, SITES[site], c2_, s2, m2_.len())));
         }
         Ok(())
-    }
-    fn describe(&self, idx: u64) -> J {
-        let (ki, site, mi) = self.case(idx);
-        json!({"kind": KINDS[ki].0, "site": SITES[site], "message_hex": hex(&self.msgs[mi][..self.msgs[mi].len().min(40)]), "message_len": self.msgs[mi].len()})
     }
 }
 
@@ -228,14 +273,18 @@ pub fn build(quick: bool) -> Check {
     Check {
         id: "C13",
         level: "model_checking",
-        rule: format!("every ErrorKind variant of the tree under test ({} variants, list regenerated by build.rs) x 12 reporting sites (init via COM_INIT_DB and USE, prepare, query error fresh / after complete_one / after finish_one, finish_error after 0 rows / rows / a complete unended row in text mode, binary finish_error after 0 rows / rows, binary error after finish_one) x message classes (empty, 1 byte, 512 bytes, 70000 bytes in thorough, invalid UTF-8, leading '#', embedded NUL, leading 0xFF), each followed by a sentinel PING. Oracle: the decoded ERR carries (kind as u16, kind.sqlstate(), message bytes) and mysql_common reads the same; per variant: code <-> kind both ways, (name, code, SQLSTATE) equal the pinned golden table, codes equal the mysql client crate's independent table, 46 documented (code, SQLSTATE) anchors.", KINDS.len()),
+        rule: format!("every ErrorKind variant of the tree under test ({} variants, list regenerated by build.rs) x 12 reporting sites (init via COM_INIT_DB and USE, prepare, query error fresh / after complete_one / after finish_one, finish_error after 0 rows / rows / a complete unended row in text mode, binary finish_error after 0 rows / rows, binary error after finish_one) x message classes (empty, 1 byte, 512 bytes, 70000 bytes in thorough, invalid UTF-8, leading '#', embedded NUL, leading 0xFF), each followed by a sentinel PING; every 97th (thorough: 11th) kind x all sites x 3 messages again for clients that answered the greeting with the pre-4.1 layout, with CLIENT_PROTOCOL_41 alone, and with libmysqlclient's full set (db, plugin, attributes). Oracle: the decoded ERR carries (kind as u16, kind.sqlstate(), message bytes) and mysql_common reads the same; per variant: code <-> kind both ways, (name, code, SQLSTATE) equal the pinned golden table, codes equal the mysql client crate's independent table, 46 documented (code, SQLSTATE) anchors.", KINDS.len()),
         assumptions: vec![
             "trusted base for SQLSTATEs beyond the 46 anchors: the table pinned in /verif/data equals MariaDB's published one (as the generator comment in errorcodes.rs states); variants added later are checked for self-consistency only".into(),
         ],
         bounds: json!({"kinds": KINDS.len(), "sites": 12, "messages": if quick {7} else {8}}),
         exhaustive: true,
         caps_hit: vec![],
-        families: vec![Box::new(Sites { msgs }), Box::new(Tables)],
-        required: vec!["errors_after_resultset_header", "golden_rows_checked", "client_crate_rows_checked", "anchors_checked"],
+        families: vec![
+            Box::new(Sites { msgs }),
+            Box::new(Handshakes { kinds: (0..KINDS.len()).step_by(if quick { 97 } else { 11 }).collect(), msgs: vec![vec![], b"denied #1".to_vec(), vec![b'm'; 600]] }),
+            Box::new(Tables),
+        ],
+        required: vec!["errors_to_other_handshakes", "errors_after_resultset_header", "golden_rows_checked", "client_crate_rows_checked", "anchors_checked"],
     }
 }
